@@ -203,6 +203,32 @@ def run(ctx, scale=1):
                             {"kind": "parens", "expr": text, "variant": vt})
 
 
+    # ---- chains of the operators that are flattened into one n-ary node: any number of parenthesis layers around a
+    #      sub-chain reads like one layer (the layers are removed while the chain is folded)
+    for op in ["+", "*", "AND", "OR", "||", "&", "|"]:
+        for base, layered in (("a1 {o} ( b2 {o} c3 )", "a1 {o} {L} b2 {o} c3 {R}"), ("( a1 {o} b2 ) {o} c3", "{L} a1 {o} b2 {R} {o} c3"),
+                              ("a1 {o} ( b2 {o} c3 ) {o} d4", "a1 {o} {L} b2 {o} c3 {R} {o} d4"), ("f9 ( a1 {o} ( b2 {o} c3 ) , 1 )", "f9 ( a1 {o} {L} b2 {o} c3 {R} , 1 )")):
+            bt = base.format(o=op)
+            ref = R.parse_raw(POSITIONS[0][1].format(e=bt))
+            if ref[0] != "ok":
+                continue
+            ref_tree = C.cdump(C.canon(get(ref[1], POSITIONS[0][2])))
+            for layers in (2, 3, 5):
+                vt = layered.format(o=op, L="( " * layers, R=") " * layers).strip()
+                for name, tpl, path in POSITIONS[:2]:
+                    r = R.parse_raw(tpl.format(e=vt))
+                    rb = R.parse_raw(tpl.format(e=bt))
+                    rep.case("layers|%s|%s" % (name, vt))
+                    rep.count("parens", "chain-layers")
+                    try:
+                        got = "$err:" + r[1] if r[0] != "ok" else C.cdump(C.canon(get(r[1], path)))
+                        want = "$err:" + rb[1] if rb[0] != "ok" else C.cdump(C.canon(get(rb[1], path)))
+                    except Exception:
+                        continue
+                    if got != want:
+                        rep.finding("parens-change-tree", "%r -> %s but %r -> %s" % (bt, want[:160], vt[:140], got[:160]),
+                                    {"kind": "parens", "expr": bt, "variant": vt})
+
     # ---- sub-queries are expressions too: a second / third pair of parentheses around one must be inert,
     # and it must read the same in every position
     SUBQ = ["select a1 from u2", "select a1 from u2 order by a1 limit 1", "select a1 from u2 where b3 = 4 order by a1 desc limit 5 offset 2",
